@@ -15,6 +15,24 @@ class DiffConfig:
         self.differs = differs
         self._atomic_paths = atomic_paths or {}
 
+    def get_predicates(self, path):
+        """Look up the predicates for path without storing a default.
+
+        Indexing a defaultdict stores the default under the key, and
+        diff_dicts takes the presence of a key in predicates to mean that
+        predicates were configured for that path.
+        """
+        predicates = self.predicates
+        if path in predicates:
+            return predicates[path]
+        default_values = getattr(predicates, 'default_values', None)
+        if default_values is not None and path in default_values:
+            return default_values[path]
+        default_factory = getattr(predicates, 'default_factory', None)
+        if default_factory is None:
+            raise KeyError(path)
+        return default_factory()
+
     def diff_item_at_path(self, a, b, path):
         """Calculate the diff for path."""
         self.differs[path](a, b, path=path, config=self)
